@@ -7,6 +7,7 @@ import (
 	"math/big"
 	"math/rand"
 	"os"
+	"time"
 
 	"github.com/datastax/go-cassandra-native-protocol/primitive"
 )
@@ -146,6 +147,27 @@ func cqlRand(args []string) int {
 						distinct[fmt.Sprintf("%s/%s/%d", t, r, n.BitLen())] = true
 					}
 				}
+			}
+		}
+		// ---- timestamp <-> time.Time: random instants, half of them on a whole second, both sides of the epoch
+		if t == "timestamp" {
+			ms := rnd.Int63n(1<<50) - 1<<49
+			if rnd.Intn(2) == 0 {
+				ms -= ms % 1000
+			}
+			tm := time.UnixMilli(ms).UTC()
+			rep.Evaluations++
+			b, err, p := safeEncode(codec, tm, v)
+			var back time.Time
+			var any interface{}
+			if p != "" || err != nil {
+				rep.violate("C11|cqlrand|time-encode|timestamp", fmt.Sprintf("timestamp <- time.Time(%d ms): %v %s", ms, err, p), map[string]interface{}{"check": "cqlrand", "seed": *seedv, "i": i})
+			} else if _, derr, dp := safeDecode(codec, b, &back, v); dp != "" || derr != nil || !back.Equal(tm) {
+				rep.violate("C11|cqlrand|time-roundtrip|timestamp|time", fmt.Sprintf("timestamp <- time.Time(%d ms) encoded to % x, which decodes back as %v (%d ms) %v %s", ms, b, back, back.UnixMilli(), derr, dp), map[string]interface{}{"check": "cqlrand", "seed": *seedv, "i": i})
+			} else if _, derr, dp := safeDecode(codec, b, &any, v); dp != "" || derr != nil {
+				rep.violate("C11|cqlrand|time-roundtrip|timestamp|any", fmt.Sprintf("timestamp %d ms (% x) into *interface{}: %v %s", ms, b, derr, dp), map[string]interface{}{"check": "cqlrand", "seed": *seedv, "i": i})
+			} else if got, ok := any.(time.Time); !ok || !got.Equal(tm) {
+				rep.violate("C11|cqlrand|time-roundtrip|timestamp|any", fmt.Sprintf("timestamp %d ms (% x) into *interface{} gives %v", ms, b, any), map[string]interface{}{"check": "cqlrand", "seed": *seedv, "i": i})
 			}
 		}
 		// ---- decode direction: random bytes of the type's width (date is offset-coded: encode direction only)
